@@ -28,7 +28,7 @@ func init() {
 				Blocks:   16,
 				Procs:    16,
 				Rule: "(a) deterministic runs: buffer sizes 2..64 and a few large ones, streams whose number of distinct values is below, at and far above the size, every value repeated 1..4 times in interleaved order, Reset at random points; after EVERY Add: Count == exact number of distinct values while fewer than size distinct values have been added since creation/Reset, Len <= size, Count == Len * 2^j with j an integer that never decreases until Reset; after Reset: Len == 0, Count == 0 and the exact regime again. " +
-					"(b) statistical configurations (size, D): sizes 8, 16, 64 with D below, 10x and 100x the size using R = 4000 (40000 thorough) independent seeded counters each, and sizes 4, 5, 6 with D = 48 and 600 using R = 200000 (larger R because the estimator is more skewed there); the fixed stream repeats every value 1..3 times, interleaved; |mean(Count) - D| <= 7 * sd/sqrt(R) + 0.002 * D. Sizes 2 and 3 get the deterministic clauses only (estimator too heavy-tailed for a CLT-based tolerance). " +
+					"(b) statistical configurations (size, D): sizes 8, 16, 64 with D below, 10x and 100x the size using R = 4000 (40000 thorough) independent seeded counters each, sizes 4, 5, 6 with D = 48 and 600 using R = 200000 (larger R because the estimator is more skewed there), sizes 64..256 with enough distinct values for many halving rounds, and scripted streams that sit just above capacity with the zero value of the element type at the critical position (first Add after the buffer fills, first Add overall, back-to-back repeats); the fixed stream repeats every value 1..3 times, interleaved; |mean(Count) - D| <= 7 * sd/sqrt(R) + 0.002 * D. Sizes 2 and 3 get the deterministic clauses only (estimator too heavy-tailed for a CLT-based tolerance). " +
 					"All randomness derives from VERIF_SEED. distinct = hash(size, stream, seed) of deterministic runs + one per statistical configuration; non-trivial = the run went above capacity (at least one halving)",
 				Required:     []string{"deterministic_runs", "adds_checked", "exact_regime_checks", "halvings_observed", "resets", "statistical_configs", "statistical_runs", "runs_with_repeats_above_capacity"},
 				Assumptions:  []string{"CLT tolerance: 7 sample standard errors + 0.2 % of D; measured skewness is reported in the evidence (|skew| * 343 / (6 sqrt(R)) stays below 1, so the normal tail 2.6e-12 is off by a small factor only)", "the hook distinct.VerifReseed only replaces the random source of a counter built by NewCounter"},
@@ -180,18 +180,43 @@ func c19det(c *fw.Ctx, r *rand.Rand, caseNo int) {
 
 type c19cfg struct {
 	Size, D, R int
+	Kind       string // "" = shuffled stream with repeats; otherwise a scripted stream just above capacity
 }
 
 func c19stat(c *fw.Ctx, cfg c19cfg, cfgNo int) {
 	// fixed stream: D distinct values, each 1..3 times, interleaved (depends on the configuration only)
 	sr := rand.New(rand.NewPCG(uint64(cfg.Size)*1000003+uint64(cfg.D), 77))
 	var stream []int
-	for v := 0; v < cfg.D; v++ {
-		for k := 1 + sr.IntN(3); k > 0; k-- {
+	switch cfg.Kind {
+	case "":
+		for v := 0; v < cfg.D; v++ {
+			for k := 1 + sr.IntN(3); k > 0; k-- {
+				stream = append(stream, v)
+			}
+		}
+		sr.Shuffle(len(stream), func(i, j int) { stream[i], stream[j] = stream[j], stream[i] })
+	case "fill-then-zero":
+		// exactly fill the buffer with non-zero values, then the zero value of the
+		// element type arrives as the first Add above capacity, then the rest
+		for v := 1; v < cfg.D; v++ {
+			stream = append(stream, v)
+			if v == cfg.Size {
+				stream = append(stream, 0)
+			}
+		}
+		if cfg.D <= cfg.Size {
+			stream = append(stream, 0)
+		}
+	case "zero-first":
+		for v := 0; v < cfg.D; v++ {
 			stream = append(stream, v)
 		}
+	case "ascending-pairs":
+		// every value twice in a row (back-to-back repeats), zero included
+		for v := 0; v < cfg.D; v++ {
+			stream = append(stream, v, v)
+		}
 	}
-	sr.Shuffle(len(stream), func(i, j int) { stream[i], stream[j] = stream[j], stream[i] })
 	var sum, sum2, sum3 float64
 	maxLen := 0
 	for run := 0; run < cfg.R; run++ {
@@ -231,7 +256,7 @@ func c19stat(c *fw.Ctx, cfg c19cfg, cfgNo int) {
 	}
 	c.Add("statistical_configs", 1)
 	c.Add("statistical_runs", int64(cfg.R))
-	c.Note("statistical config size=%d D=%d R=%d: mean=%.3f sd=%.2f se=%.4f z=%.2f skew=%.2f tolerance=%.3f", cfg.Size, cfg.D, cfg.R, mean, sd, se, z, skew, tol)
+	c.Note("statistical config %q size=%d D=%d R=%d: mean=%.3f sd=%.2f se=%.4f z=%.2f skew=%.2f tolerance=%.3f", cfg.Kind, cfg.Size, cfg.D, cfg.R, mean, sd, se, z, skew, tol)
 	c.SeenEnum(1)
 	if c.WantSample() {
 		c.Sample(map[string]any{"statistical_config": cfg, "mean_Count": mean, "sd": sd, "standard_error": se, "z": z, "skewness": skew, "tolerance": tol})
@@ -260,10 +285,15 @@ func runC19(c *fw.Ctx) {
 	R := c.Pick(4000, 40000)
 	Rs := c.Pick(200000, 1000000)
 	cfgs := []c19cfg{
-		{8, 6, R}, {8, 80, R}, {8, 800, R},
-		{16, 12, R}, {16, 160, R}, {16, 1600, R},
-		{64, 50, R}, {64, 640, R}, {64, 2000, R}, {64, 6400, R / 2},
-		{4, 48, Rs}, {5, 48, Rs}, {6, 48, Rs}, {4, 600, Rs / 4}, {5, 600, Rs / 4}, {6, 600, Rs / 4},
+		{8, 6, R, ""}, {8, 80, R, ""}, {8, 800, R, ""},
+		{16, 12, R, ""}, {16, 160, R, ""}, {16, 1600, R, ""},
+		{64, 50, R, ""}, {64, 640, R, ""}, {64, 2000, R, ""}, {64, 6400, R / 2, ""},
+		{4, 48, Rs, ""}, {5, 48, Rs, ""}, {6, 48, Rs, ""}, {4, 600, Rs / 4, ""}, {5, 600, Rs / 4, ""}, {6, 600, Rs / 4, ""},
+		// larger buffers with many halving rounds (size + rounds beyond 64 bits of one random word)
+		{64, 65536, R / 8, ""}, {100, 20000, R / 4, ""}, {128, 30000, R / 4, ""}, {256, 20000, R / 4, ""},
+		// just above capacity, with the zero value of the element type at the critical position
+		{8, 9, 10 * R, "fill-then-zero"}, {8, 16, 10 * R, "fill-then-zero"}, {16, 17, 10 * R, "fill-then-zero"}, {4, 5, Rs / 2, "fill-then-zero"},
+		{8, 12, 10 * R, "zero-first"}, {16, 40, 10 * R, "ascending-pairs"}, {8, 9, 10 * R, "ascending-pairs"}, {64, 65, 4 * R, "fill-then-zero"},
 	}
 	for i, cfg := range cfgs {
 		if i%c.NBlocks != c.Block {
